@@ -106,6 +106,21 @@ def cases(draw):
         seen.add(p)
         entries.append([p, draw(st.sampled_from([1, 1, 2, 3, 5, 6]))])
     base = [['password1', 6], ['Monkey12', 5], ['iloveyou', 5], ['love2019!', 2]]
+    if draw(st.integers(0, 2)) == 0:
+        # multi-word heavy: base words seen often enough, then 2-4 of them glued together, longer ones before their tails
+        words = draw(st.lists(st.sampled_from(['blue', 'horse', 'castle', 'pass', 'word', 'love', 'monkey', 'dragon']), min_size=3, max_size=5, unique=True))
+        entries = [[w, draw(st.sampled_from([5, 6, 7]))] for w in words] + entries
+        for _ in range(draw(st.integers(2, 6))):
+            k = draw(st.sampled_from([2, 3, 3, 4]))
+            ws = [draw(st.sampled_from(words)) for _ in range(k)]
+            mw = ''.join(ws)
+            if draw(st.booleans()):
+                mw = mw.capitalize()
+            tail = ''.join(ws[1:])
+            for cand in (mw, tail.capitalize() if draw(st.booleans()) else tail):
+                if cand not in seen and len(cand) <= 30 and in_domain(cand, enc):
+                    seen.add(cand)
+                    entries.append([cand, draw(st.sampled_from([1, 1, 2]))])
     if enc in ('utf-8', 'cp1251') and draw(st.booleans()):
         base.append(['Пароль12', 3])
     if enc in ('utf-8', 'latin-1', 'cp1252') and draw(st.booleans()):
